@@ -789,7 +789,7 @@ emit(s)
 
 // ---- stale-data probe (every k in 1..14 x variant)
 
-var staleVariants = []string{"plain", "cells", "loop", "loop-cells", "after-error", "after-tailcall", "after-yield-abandon", "vararg-callee"}
+var staleVariants = []string{"plain", "cells", "loop", "loop-cells", "after-error", "after-tailcall", "after-yield-abandon", "vararg-callee", "missing-params"}
 
 func nameList(prefix string, k int) []string {
 	var out []string
@@ -839,6 +839,11 @@ func staleProgram(k int, variant string) string {
 		w("local function A() local %s = %s coroutine.yield(%s) return %s end\n", nl, vl, names[0], nl)
 		w("local function B() local %s return %s end\n", nl, nl)
 		w("for r = 1, 12 do local co = coroutine.create(A) emit(coroutine.resume(co)) if r %% 2 == 0 then emit(coroutine.resume(co)) end emit(nils(B())) end\n")
+	case "missing-params":
+		w("local function A(%s) %s = %s return %s end\n", nl, nl, vl, names[k-1])
+		w("local function B(%s) return %s end\n", nl, nl)
+		w("local function C(%s) local function g() return %s end return g() end\n", nl, nl)
+		w("for r = 1, 12 do emit(A()) emit(nils(B())) emit(nils(B(r))) emit(nils(C())) emit(pcall(A)) emit(nils(pcall(B))) end\n")
 	case "vararg-callee":
 		w("local function A(...) local %s = ... return %s end\n", nl, names[k-1])
 		w("local function B(...) local %s = ... return %s end\n", nl, nl)
